@@ -3,6 +3,7 @@ package main
 import (
 	"fmt"
 	"go/token"
+	"strings"
 
 	"golang.org/x/tools/go/ssa"
 )
@@ -111,6 +112,56 @@ func indexIn(ins ssa.Instruction) int {
 	return -1
 }
 
+// scanCASRetry: the contracts treat "load; compare; CompareAndSwap" as one atomic read-modify-write of
+// the cell. That is justified only for the retry idiom: when the swap fails (another goroutine moved
+// the cell between the load and the swap) control must come back to the swap through a new load. The
+// scan checks, for every sync/atomic CompareAndSwap call in the function, that its result decides a
+// branch of its own block and that the failure branch leads back to the call (a retry loop). A single
+// attempt that drops the update on failure — invisible to a call verified on its own — is refuted.
+func scanCASRetry(w *World, fn *ssa.Function) *VC {
+	vc := newVC(w, fn, &FuncSpec{Key: qualName(fn), Loops: map[int]*LoopSpec{}})
+	vc.name = qualName(fn) + " [scan: compare-and-swap failures are retried]"
+	add := func(ok bool, desc string, pos token.Pos) {
+		ob := &Oblig{Fn: vc.name, Kind: "scan", Desc: desc, Goal: "true", Reach: "true"}
+		if pos.IsValid() {
+			p := w.Fset.Position(pos)
+			ob.Pos = fmt.Sprintf("%s:%d", relRepo(p.Filename), p.Line)
+		}
+		ob.ID = fmt.Sprintf("%s#scan.%d", vc.name, vc.countKind("scan"))
+		ob.Solver = "syntactic"
+		if ok {
+			ob.Status = "proved"
+		} else {
+			ob.Status = "refuted"
+			ob.Output = "condition on the SSA form does not hold"
+		}
+		vc.obligs = append(vc.obligs, ob)
+	}
+	n := 0
+	for _, b := range fn.Blocks {
+		for _, ins := range b.Instrs {
+			call, ok := ins.(*ssa.Call)
+			if !ok {
+				continue
+			}
+			f, ok := call.Call.Value.(*ssa.Function)
+			if !ok || f.Pkg == nil || f.Pkg.Pkg.Path() != "sync/atomic" || !strings.HasPrefix(f.Name(), "CompareAndSwap") {
+				continue
+			}
+			n++
+			retried := false
+			if iff, ok := b.Instrs[len(b.Instrs)-1].(*ssa.If); ok && iff.Cond == ssa.Value(call) && len(b.Succs) == 2 {
+				fail := b.Succs[1]
+				retried = fail == b || blockReaches(fail, b)
+			}
+			add(retried, fmt.Sprintf("the failure branch of the %s at %s leads back to it (retry loop)", f.Name(), vc.posOf(call.Pos())), call.Pos())
+		}
+	}
+	add(n > 0, "the function performs at least one compare-and-swap (the scan is not vacuous)", fn.Pos())
+	return vc
+}
+
 var scanFuncs = map[string]func(*World, *ssa.Function) *VC{
 	"go-captures": scanGoCaptures,
+	"cas-retry":   scanCASRetry,
 }
